@@ -1306,10 +1306,6 @@ func setInterfaceTypeFields(cadence.InterfaceType, []cadence.Field)
 
 func (d *Decoder) decodeNominalType(obj jsonObject, kind string, results typeDecodingResults) cadence.Type {
 
-	inits := getKey(d, obj, initializersKey, func(valueJSON any) [][]cadence.Parameter {
-		return d.decodeInitializers(valueJSON, results)
-	})
-
 	compositeTypeID := getKey(d, obj, typeIDKey, d.decodeCompositeTypeID)
 
 	var result cadence.Type
@@ -1323,7 +1319,7 @@ func (d *Decoder) decodeNominalType(obj jsonObject, kind string, results typeDec
 			compositeTypeID.location,
 			compositeTypeID.qualifiedIdentifier,
 			nil,
-			inits,
+			nil,
 		)
 		result = compositeType
 
@@ -1333,24 +1329,17 @@ func (d *Decoder) decodeNominalType(obj jsonObject, kind string, results typeDec
 			compositeTypeID.location,
 			compositeTypeID.qualifiedIdentifier,
 			nil,
-			inits,
+			nil,
 		)
 		result = compositeType
 
 	case "Event":
-		if len(inits) != 1 {
-			panic(errors.NewDefaultUserError(
-				"invalid event: exactly one initializer expected, got %d",
-				len(inits),
-			))
-		}
-
 		compositeType = cadence.NewMeteredEventType(
 			d.gauge,
 			compositeTypeID.location,
 			compositeTypeID.qualifiedIdentifier,
 			nil,
-			inits[0],
+			nil,
 		)
 		result = compositeType
 
@@ -1360,7 +1349,7 @@ func (d *Decoder) decodeNominalType(obj jsonObject, kind string, results typeDec
 			compositeTypeID.location,
 			compositeTypeID.qualifiedIdentifier,
 			nil,
-			inits,
+			nil,
 		)
 		result = compositeType
 
@@ -1370,7 +1359,7 @@ func (d *Decoder) decodeNominalType(obj jsonObject, kind string, results typeDec
 			compositeTypeID.location,
 			compositeTypeID.qualifiedIdentifier,
 			nil,
-			inits,
+			nil,
 		)
 		result = interfaceType
 
@@ -1380,7 +1369,7 @@ func (d *Decoder) decodeNominalType(obj jsonObject, kind string, results typeDec
 			compositeTypeID.location,
 			compositeTypeID.qualifiedIdentifier,
 			nil,
-			inits,
+			nil,
 		)
 		result = interfaceType
 
@@ -1390,43 +1379,40 @@ func (d *Decoder) decodeNominalType(obj jsonObject, kind string, results typeDec
 			compositeTypeID.location,
 			compositeTypeID.qualifiedIdentifier,
 			nil,
-			inits,
+			nil,
 		)
 		result = interfaceType
 
 	case "Enum":
-		rawType := getKey(d, obj, typeKey, func(valueJSON any) cadence.Type {
-			return d.decodeType(valueJSON, results)
-		})
-
 		compositeType = cadence.NewMeteredEnumType(
 			d.gauge,
 			compositeTypeID.location,
 			compositeTypeID.qualifiedIdentifier,
-			rawType,
 			nil,
-			inits,
+			nil,
+			nil,
 		)
 		result = compositeType
 
 	case "Attachment":
-		baseType := getKey(d, obj, typeKey, func(valueJSON any) cadence.Type {
-			return d.decodeType(valueJSON, results)
-		})
-
 		compositeType = cadence.NewMeteredAttachmentType(
 			d.gauge,
 			compositeTypeID.location,
 			compositeTypeID.qualifiedIdentifier,
-			baseType,
 			nil,
-			inits,
+			nil,
+			nil,
 		)
 		result = compositeType
 
 	default:
 		panic(errors.NewDefaultUserError("invalid kind: %s", kind))
 	}
+
+	// The encoder registers the type before it prepares the members of the type,
+	// and it prepares the fields first, then the initializers, and then the raw type / base type.
+	// A member may refer, by type ID, to the type itself, or to a type that is defined in an earlier member.
+	// So register the type before decoding any of the members, and decode the members in the same order.
 
 	results[compositeTypeID.typeID] = result
 
@@ -1439,6 +1425,51 @@ func (d *Decoder) decodeNominalType(obj jsonObject, kind string, results typeDec
 		setCompositeTypeFields(compositeType, fields)
 	case interfaceType != nil:
 		setInterfaceTypeFields(interfaceType, fields)
+	}
+
+	inits := getKey(d, obj, initializersKey, func(valueJSON any) [][]cadence.Parameter {
+		return d.decodeInitializers(valueJSON, results)
+	})
+
+	switch typ := result.(type) {
+	case *cadence.StructType:
+		typ.Initializers = inits
+
+	case *cadence.ResourceType:
+		typ.Initializers = inits
+
+	case *cadence.EventType:
+		if len(inits) != 1 {
+			panic(errors.NewDefaultUserError(
+				"invalid event: exactly one initializer expected, got %d",
+				len(inits),
+			))
+		}
+		typ.Initializer = inits[0]
+
+	case *cadence.ContractType:
+		typ.Initializers = inits
+
+	case *cadence.StructInterfaceType:
+		typ.Initializers = inits
+
+	case *cadence.ResourceInterfaceType:
+		typ.Initializers = inits
+
+	case *cadence.ContractInterfaceType:
+		typ.Initializers = inits
+
+	case *cadence.EnumType:
+		typ.Initializers = inits
+		typ.RawType = getKey(d, obj, typeKey, func(valueJSON any) cadence.Type {
+			return d.decodeType(valueJSON, results)
+		})
+
+	case *cadence.AttachmentType:
+		typ.Initializers = inits
+		typ.BaseType = getKey(d, obj, typeKey, func(valueJSON any) cadence.Type {
+			return d.decodeType(valueJSON, results)
+		})
 	}
 
 	return result
